@@ -46,6 +46,8 @@ type HarnessSpec struct {
 	Merge    []string
 	NoMerge  bool
 	NoIfConv bool
+	Shards   int
+	shard    int
 	Bounds   string
 	Reach    []string
 	fn       *ssa.Function
@@ -167,6 +169,8 @@ func loadProgram(repo, verif string) (*Program, error) {
 							h.NoMerge = true
 						case "noifconv":
 							h.NoIfConv = true
+						case "shards":
+							h.Shards, _ = strconv.Atoi(arg)
 						case "bounds":
 							h.Bounds = arg
 						}
@@ -281,6 +285,10 @@ func newExec(P *Program, h *HarnessSpec, opts RunOpts) (*Exec, error) {
 		maxAlloc: 1 << 17, smallBuf: 24, regions: map[*ssa.BasicBlock]regionInfo{},
 	}
 	ex.noIfConv = h.NoIfConv
+	ex.shard, ex.shards = -1, h.Shards
+	if h.Shards > 0 {
+		ex.shard = h.shard
+	}
 	ex.started = time.Now()
 	ex.wallBudget = 15 * time.Minute
 	if opts.Tier > 0 {
@@ -447,7 +455,79 @@ func dedup(in []string) []string {
 }
 
 // runProperty runs all harnesses of a property for a tier in parallel.
-func runMany(P *Program, hs []*HarnessSpec, opts RunOpts, workers int) []*HarnessResult {
+func runMany(P *Program, hs0 []*HarnessSpec, opts RunOpts, workers int) []*HarnessResult {
+	// expand sharded harnesses into one task per shard
+	var hs []*HarnessSpec
+	owner := []int{}
+	for i, h := range hs0 {
+		if h.Shards > 1 {
+			for k := 0; k < h.Shards; k++ {
+				c := *h
+				c.shard = k
+				hs = append(hs, &c)
+				owner = append(owner, i)
+			}
+		} else {
+			hs = append(hs, h)
+			owner = append(owner, i)
+		}
+	}
+	sub := runManyFlat(P, hs, opts, workers)
+	out := make([]*HarnessResult, len(hs0))
+	for j, r := range sub {
+		i := owner[j]
+		if out[i] == nil {
+			out[i] = r
+			continue
+		}
+		out[i].merge(r)
+	}
+	return out
+}
+
+func (a *HarnessResult) merge(b *HarnessResult) {
+	a.Paths += b.Paths
+	a.DeadPaths += b.DeadPaths
+	a.Forks += b.Forks
+	a.Merges += b.Merges
+	a.Obligations += b.Obligations
+	a.Trivial += b.Trivial
+	a.Asserts += b.Asserts
+	a.Queries += b.Queries
+	a.Sat += b.Sat
+	a.Unsat += b.Unsat
+	a.Unknown += b.Unknown
+	a.MemoHits += b.MemoHits
+	a.SolverS += b.SolverS
+	if b.WallS > a.WallS {
+		a.WallS = b.WallS
+	}
+	for k, v := range b.Reach {
+		a.Reach[k] += v
+	}
+	var miss []string
+	for _, m := range a.MissingReach {
+		if b.Reach[m] == 0 && a.Reach[m] == 0 {
+			miss = append(miss, m)
+		}
+	}
+	a.MissingReach = miss
+	a.Funcs = dedup(append(a.Funcs, b.Funcs...))
+	sort.Strings(a.Funcs)
+	a.Violations = append(a.Violations, b.Violations...)
+	a.BoundExceeded = dedup(append(a.BoundExceeded, b.BoundExceeded...))
+	if a.Unsupported == "" {
+		a.Unsupported = b.Unsupported
+	}
+	a.Inconclusive = dedup(append(a.Inconclusive, b.Inconclusive...))
+	a.Assumes = dedup(append(a.Assumes, b.Assumes...))
+	a.SolverErrors = dedup(append(a.SolverErrors, b.SolverErrors...))
+	a.Witnesses = append(a.Witnesses, b.Witnesses...)
+	a.MapRanges += b.MapRanges
+	a.SharedWrites = dedup(append(a.SharedWrites, b.SharedWrites...))
+}
+
+func runManyFlat(P *Program, hs []*HarnessSpec, opts RunOpts, workers int) []*HarnessResult {
 	res := make([]*HarnessResult, len(hs))
 	var wg sync.WaitGroup
 	sem := make(chan struct{}, workers)
